@@ -183,7 +183,7 @@ def _parts(path, per):
 def _gen(ctx, args, out, timeout=900):
     """Run an event generator of the harness.  Exit code 3 = the watchdog saw a call of the code
     under test that did not return: the in-flight call is reported (a hang is data, like a panic)."""
-    p = vh(args + [f"out={out}", f"hang_s={15 if ctx.quick else 60}"], check=False, timeout=timeout)
+    p = vh(args + [f"out={out}", f"hang_s={40 if ctx.quick else 90}"], check=False, timeout=timeout)
     if p.returncode == 3:
         hang = Path(str(out) + ".hang")
         e = json.loads(hang.read_text()) if hang.exists() else {"fn": "?"}
